@@ -314,6 +314,8 @@ func replayService(t []vStep) (*seqFail, int) {
 	for i, s := range t {
 		o := s.Op
 		var opErr error
+		// a local operation that never returns must be a verdict of this case, not a child killed after minutes
+		watchdog := time.AfterFunc(3*tBound, func() { panic("c16seq: operation never returns: " + o.String()) })
 		switch o.Op {
 		case "add", "addfail":
 			impl := &c16Impl{inst: o.Inst, fail: o.Op == "addfail"}
@@ -326,6 +328,7 @@ func replayService(t []vStep) (*seqFail, int) {
 				// unique among the live objects
 				for k, st := range s.Obs.St {
 					if st == "live" && k+1 != o.Inst && w.realID[k+1] == id {
+						watchdog.Stop()
 						return &seqFail{"service/seq/add-duplicate-id", fmt.Sprintf("Add returned identifier %d, already held by the live object inst%d", id, k+1)}, i
 					}
 				}
@@ -339,6 +342,7 @@ func replayService(t []vStep) (*seqFail, int) {
 			tag := fmt.Sprintf("t%d", i)
 			r, opErr = w.caller.hello(w.meta, w.real(o), tag)
 			if opErr == nil && r != "re:"+tag {
+				watchdog.Stop()
 				return &seqFail{"service/seq/call-wrong-reply", fmt.Sprintf("%s returned %q", o, r)}, i
 			}
 		case "subscribe":
@@ -353,6 +357,7 @@ func replayService(t []vStep) (*seqFail, int) {
 		default:
 			hlib.Fatal("unknown op %q", o.Op)
 		}
+		watchdog.Stop()
 		if opErr == errNoAnswer {
 			return &seqFail{"service/seq/" + o.Op + "-never-answered", fmt.Sprintf("%s: %v (the specification answers %q)", o, opErr, s.Obs.Ret.E)}, i
 		}
